@@ -3120,13 +3120,30 @@ func (d *Document) serializeRelationships() {
 
 // serializeDocumentRelationships 序列化文档关系
 func (d *Document) serializeDocumentRelationships() {
-	// 获取已存在的关系，从索引1开始（保留给styles.xml）
-	relationships := []Relationship{
-		{
-			ID:     "rId1",
-			Type:   "http://schemas.openxmlformats.org/officeDocument/2006/relationships/styles",
+	const stylesType = "http://schemas.openxmlformats.org/officeDocument/2006/relationships/styles"
+
+	// 打开的文档保留它自己的styles.xml关系（ID可能不是rId1）；
+	// 只有在没有该关系时才补上，并且不使用已被占用的ID
+	hasStyles := false
+	used := make(map[string]bool)
+	for _, rel := range d.documentRelationships.Relationships {
+		used[rel.ID] = true
+		if rel.Type == stylesType {
+			hasStyles = true
+		}
+	}
+
+	relationships := []Relationship{}
+	if !hasStyles {
+		stylesID := "rId1"
+		for n := len(d.documentRelationships.Relationships) + 2; used[stylesID]; n++ {
+			stylesID = fmt.Sprintf("rId%d", n)
+		}
+		relationships = append(relationships, Relationship{
+			ID:     stylesID,
+			Type:   stylesType,
 			Target: "styles.xml",
-		},
+		})
 	}
 
 	// 添加动态创建的文档级关系（如页眉、页脚等）
@@ -3284,17 +3301,10 @@ func (d *Document) parseDocumentRelationships() error {
 		return WrapError("parse_document_relationships", err)
 	}
 
-	// 保存解析的关系（不包括styles.xml，因为它在serializeDocumentRelationships中会自动添加）
-	// 过滤掉styles.xml的关系，因为它总是rId1并在保存时自动添加
-	filteredRels := make([]Relationship, 0)
-	for _, rel := range relationships.Relationships {
-		if rel.Type != "http://schemas.openxmlformats.org/officeDocument/2006/relationships/styles" {
-			filteredRels = append(filteredRels, rel)
-		}
-	}
-
-	d.documentRelationships.Relationships = filteredRels
-	Debugf("文档关系解析完成，共 %d 个关系", len(filteredRels))
+	// 保存解析的全部关系，包括styles.xml的关系：它保留原有的ID（不一定是rId1），
+	// serializeDocumentRelationships只在缺少该关系时才补上
+	d.documentRelationships.Relationships = append([]Relationship{}, relationships.Relationships...)
+	Debugf("文档关系解析完成，共 %d 个关系", len(d.documentRelationships.Relationships))
 	return nil
 }
 
